@@ -642,7 +642,9 @@ ConfigsOf(t) ==
     [] t = "sum" ->
          {[tool |-> t, par |-> [startv |-> v], data |-> d] : v \in {"zero", "obj", "str", "strsub", "bytes", "bytearraysub"}, d \in DataSets(1, K1)}
     [] t = "reduce" ->
-         {[tool |-> t, par |-> [init |-> b], data |-> d] : b \in BOOLEAN, d \in DataSets(1, K1)}
+         \* inone: the initial value is the object None -- an initial value like any other
+         {[tool |-> t, par |-> [init |-> b, inone |-> FALSE], data |-> d] : b \in BOOLEAN, d \in DataSets(1, K1)}
+         \cup {[tool |-> t, par |-> [init |-> TRUE, inone |-> TRUE], data |-> d] : d \in DataSets(1, K1)}
     [] t \in {"min", "max"} ->
          \* dflt: "no" | "fresh" (an object of its own) | "first" (the very object that is also
          \* the first item, if there is one): only for empty input is the default the result
